@@ -56,9 +56,9 @@ PROFILES = {
     'c02ps': {'p_ps': 1.0, 'p_ps_node': 0.6, 'p_qcap': 0.7, 'qcaps': [0, 0, 1, 2], 'n_nodes': [2, 3], 'arr_scale': 0.6, 'p_prio': 0.0},
     'c13lat': {'p_renege': 1.0, 'p_baulk': 0.3, 'p_kinds': (0.8, 0.0, 0.2, 0.0), 'p_ps': 0.0, 'p_lattice': 1.0, 'p_batch': 0.7, 'arr_scale': 0.7, 'ren_scale': 1.0,
                'disciplines': ['LIFO', 'SIRO', 'FIFO'], 'p_prio': 0.5, 'horizons': [30.0, 50.0]},
-    'c14': {'run_methods': ['time', 'time', 'customers'], 'horizons': [0.05, 0.5, 1.0, 5.0, 10.0, 20.0, 30.0, 50.0]},
-    'c14lattice': {'run_methods': ['time', 'time', 'customers'], 'p_lattice': 1.0, 'horizons': [0.5, 1.0, 2.0, 3.5, 5.0, 10.0, 20.0]},
-    'c14wide': {'run_methods': ['time', 'customers'], 'p_ps': 0.2, 'p_prio': 0.7, 'p_prio_preempt': 0.8, 'p_renege': 0.5, 'p_baulk': 0.4,
+    'c14': {'p_again': 0.35, 'run_methods': ['time', 'time', 'customers'], 'horizons': [0.05, 0.5, 1.0, 5.0, 10.0, 20.0, 30.0, 50.0]},
+    'c14lattice': {'p_again': 0.35, 'run_methods': ['time', 'time', 'customers'], 'p_lattice': 1.0, 'horizons': [0.5, 1.0, 2.0, 3.5, 5.0, 10.0, 20.0]},
+    'c14wide': {'p_again': 0.35, 'run_methods': ['time', 'customers'], 'p_ps': 0.2, 'p_prio': 0.7, 'p_prio_preempt': 0.8, 'p_renege': 0.5, 'p_baulk': 0.4,
                 'p_batch': 0.4, 'p_ccm': 0.5, 'p_cct': 0.5, 'p_syscap': 0.3, 'p_exact': 0.25, 'p_kinds': (0.35, 0.1, 0.35, 0.2)},
 }
 
